@@ -113,11 +113,21 @@ def rule_matching(ctx: Ctx) -> None:
         f = {S(k): v for k, v in p.facts.items()}
         left = f.get("truthy:estimated_objects_") if "truthy:estimated_objects_" in f else next((v for k, v in f.items() if k.startswith("truthy:estimated_objects_")), None)
         tl = next((v for k, v in f.items() if k.startswith("call:any([") and "CAM_TRAFFIC_LIGHT" in k), None)
+        import re as _re
+        for k in f:
+            if k.startswith("call:any([") and "CAM_TRAFFIC_LIGHT" in k:
+                okk = _re.match(r"^call:any\(\[(\w+)\.frame_id==FrameID\.CAM_TRAFFIC_LIGHTfor\1inestimated_objects_(@\d+)?\]\)$", k) is not None
+                ctx.check(okk, "C11-leftovers", "_get_object_results_with_id", "traffic-light-test", f"the traffic-light-camera exception is decided by `{k[5:][:100]}`; expected any(est.frame_id == CAM_TRAFFIC_LIGHT for the unpaired estimates)", fi=fi)
+        if p.exit and p.exit[0] == "raise":
+            continue
         if left and tl is False:
-            ok = len(aug) == 1 and S(aug[0].value).startswith("_get_fp_object_results(estimated_objects_")
+            ok = len(aug) == 1 and aug[0].name == "Add" and S(aug[0].value).startswith("_get_fp_object_results(estimated_objects_")
             ctx.check(ok, "C11-leftovers", "_get_object_results_with_id", "unpaired-estimates", "unpaired estimates are not appended as GT-less results built from the working list", fi=fi)
         elif left is False or tl:
             ctx.check(not aug, "C11-leftovers", "_get_object_results_with_id", f"none:{int(bool(left))}{int(bool(tl))}", "GT-less results appended although nothing is left / traffic-light frame", fi=fi)
+        elif left is None:
+            odd = [k for k in f if "estimated_objects_" in k and k.startswith(("cmp:", "eq:"))]
+            ctx.check(False, "C11-leftovers", "_get_object_results_with_id", "leftover-test", f"whether unpaired estimates remain is decided by {odd[:1] or 'nothing'}; expected `len(working list) > 0`", fi=fi)
         if p.exit == ("return",):
             ctx.check(p.retval is not None and strip_v(S(p.retval)) == "object_results", "C11-leftovers", "_get_object_results_with_id", "returns", "does not return object_results", fi=fi)
     # --- traffic lights: label stage, then uuid stage
@@ -158,6 +168,57 @@ def rule_matching(ctx: Ctx) -> None:
             ctx.check(not muts, "C11-inputs-untouched", fn, param, f"{fn} may mutate the caller's `{param}`" + (f" ({muts[0].how}, line {muts[0].line})" if muts else ""), fi=f2)
 
 
+def rule_dispatch(ctx: Ctx) -> None:
+    """Which matcher get_object_results uses: 2D objects without a ROI on either side are matched by id (traffic lights: label-first / uuid), everything else geometrically."""
+    import itertools
+
+    fi = ctx.func("evaluation.result.object_result.get_object_results")
+    paths = enum_paths(ctx, fi)
+    E0, G0 = "estimated_objects[0]", "ground_truth_objects[0]"
+    ATOMS = {"2d": f"isinstance:{E0},DynamicObject2D", "er": f"none:{E0}.roi", "gr": f"none:{G0}.roi", "tl": f"isinstance:{E0}.semantic_label.label,TrafficLightLabel"}
+    rows = set()
+    for p in paths:
+        f = {strip_v(S(k)): v for k, v in p.facts.items()}
+        if not f.get("truthy:estimated_objects") or not f.get("truthy:ground_truth_objects"):
+            continue
+        if p.exit and p.exit[0] == "raise":
+            continue
+        rv = S(p.retval) if p.retval is not None else ""
+        if rv.startswith("_get_object_results_for_tlr("):
+            out = "tlr"
+            ctx.check(rv == "_get_object_results_for_tlr(estimated_objects,ground_truth_objects,uuid_matching_first)", "C11-dispatch", "get_object_results", "tlr-args",
+                      f"the traffic-light matcher is called as `{rv[:120]}`; expected (estimated_objects, ground_truth_objects, uuid_matching_first)", fi=fi)
+        elif rv.startswith("_get_object_results_with_id("):
+            out = "id"
+            ctx.check(rv == "_get_object_results_with_id(estimated_objects,ground_truth_objects)", "C11-dispatch", "get_object_results", "id-args",
+                      f"the id matcher is called as `{rv[:120]}`; expected (estimated_objects, ground_truth_objects)", fi=fi)
+        elif any(e.kind == "call" and e.name == "_get_score_table" for e in p.effects):
+            out = "geom"
+        else:
+            continue
+        vals = {k: f.get(a) for k, a in ATOMS.items()}
+        free = [k for k, v in vals.items() if v is None]
+        for bits in itertools.product([False, True], repeat=len(free)):
+            full = dict(vals)
+            full.update(dict(zip(free, bits)))
+            noroi = full["2d"] and (full["er"] or full["gr"])
+            want = ("tlr" if full["tl"] else "id") if noroi else "geom"
+            inst = ",".join(f"{k}={int(v)}" for k, v in full.items())
+            rows.add(inst)
+            ctx.check(out == want, "C11-dispatch", "get_object_results", inst,
+                      f"for [2D={full['2d']}, est roi None={full['er']}, gt roi None={full['gr']}, traffic light={full['tl']}] the matcher is `{out}`; expected `{want}` "
+                      "(objects without a ROI cannot be matched geometrically; objects with geometry must be)", fi=fi, expected=want, found=out, sample={"row": inst, "matcher": want})
+    ctx.table_rows += len(rows)
+    ctx.require(len(rows) >= 12, f"get_object_results: only {len(rows)} rows of the matcher dispatch table recognised")
+    # label-first is the default order of the traffic-light matcher, lane-id-first only on request
+    for fq in ("evaluation.result.object_result.get_object_results", "evaluation.result.object_result._get_object_results_for_tlr"):
+        f2 = ctx.func(fq)
+        a = f2.node.args
+        dm = dict(zip([x.arg for x in a.args][len(a.args) - len(a.defaults):], a.defaults))
+        d = dm.get("uuid_matching_first")
+        ctx.check(d is None or S(d) == "False", "C11-dispatch", fq.rsplit(".", 1)[1], "uuid-first-default", f"uuid_matching_first defaults to {S(d) if d is not None else None}; traffic lights are paired by label first unless asked otherwise", fi=f2)
+
+
 def rule_counting(ctx: Ctx) -> None:
     fi = ctx.func(ACC + "calculate_tp_fp")
     paths = enum_paths(ctx, fi)
@@ -173,12 +234,18 @@ def rule_counting(ctx: Ctx) -> None:
     for p in paths:
         rv = p.retval
         ctx.check(isinstance(rv, ast.Tuple) and [strip_v(S(x)) for x in rv.elts] == ["num_tp", "num_fp"], "C11-count", "calculate_tp_fp", "returns", "does not return (num_tp, num_fp)", fi=fi)
+        for k2 in ("num_tp", "num_fp"):
+            v0 = next((S(e.value) for e in p.effects if e.kind == "assign" and e.recv == k2), None)
+            ctx.check(v0 == "0", "C11-count", "calculate_tp_fp", f"starts-at-zero:{k2}", f"`{k2}` starts at {v0}; counts start at 0", fi=fi)
     # __init__ wiring
     ini = ctx.func(ACC + "__init__")
     for p in enum_paths(ctx, ini):
         st = {strip_v(e.recv): S(e.value) for e in p.effects if e.kind == "store"}
         nested = p.facts.get("isinstance:object_results[0],list")
         allr = "all_object_results"
+        upto = next((i for i, e in enumerate(p.effects) if e.kind == "call" and e.name == "calculate_tp_fp"), len(p.effects))
+        from rules.common import flatten_check
+        flatten_check(ctx, "C11-count", "ClassificationAccuracy.__init__", ini, p, upto, allr)
         asg = [S(e.value) for e in p.effects if e.kind == "assign" and e.recv == allr]
         if not asg:
             allr = "object_results" if not nested else allr
@@ -249,7 +316,15 @@ def rule_formulas(ctx: Ctx) -> None:
             fx = F.parse(p.retval)
         except Unrecognised as exc:
             ctx.require(False, f"calculate_f1score: {exc}")
+        for k in f:
+            if k.startswith("eq:") and k.endswith("==0"):
+                try:
+                    okg = F.parse(ast.parse(k[3:-3], mode="eval").body).equals(F.parse_text("b**2 * p + r"))
+                except (Unrecognised, SyntaxError):
+                    okg = False
+                ctx.check(okg, "C11-formula", "calculate_f1score", "guard", f"the F-score guards `{k[3:-3]} != 0`, which is not its denominator beta^2 p + r", fi=ff, expected="beta**2*precision+recall != 0", found=k[3:-3])
         if defined:
+            ctx.check(any(k.startswith("eq:") and k.endswith("==0") for k in f), "C11-formula", "calculate_f1score", "guard-zero", f"the F-score is computed without testing its denominator against 0 (tests: {sorted(f)})", fi=ff)
             ok = fx.equals(F.parse_text("(1 + b**2) * p * r / (b**2 * p + r)"))
             ctx.check(ok, "C11-formula", "calculate_f1score", "f-score", f"F-score is `{S(p.retval)[:120]}`; definition: (1 + beta^2) p r / (beta^2 p + r)", fi=ff,
                       expected="(1+b^2) p r / (b^2 p + r)", found=S(p.retval)[:160], sample={"f": "(1+b^2)pr/(b^2p+r)"})
@@ -270,6 +345,10 @@ def rule_formulas(ctx: Ctx) -> None:
         want = {"num_est": f"{a}.objects_results_num", "num_gt": f"{a}.num_ground_truth", "num_tp": f"{a}.num_tp", "num_fp": f"{a}.num_fp"}
         for k, w in want.items():
             ctx.check(aug.get(k) == ("Add", w), "C11-formula", "_summarize", f"sum:{k}", f"{k} accumulates {aug.get(k)}; expected += {w}", fi=fs)
+    for p in paths[:1]:
+        for k2 in ("num_est", "num_gt", "num_tp", "num_fp"):
+            v0 = next((S(e.value) for e in p.effects if e.kind == "assign" and e.recv == k2), None)
+            ctx.check(v0 == "0", "C11-formula", "_summarize", f"starts-at-zero:{k2}", f"the total `{k2}` starts at {v0}; it must start at 0", fi=fs)
     ren2 = {"num_est": "n_est", "num_gt": "n_gt", "num_tp": "tp", "num_fp": "fp"}
     spec = [("accuracy", "tp", "n_est + n_gt - tp"), ("precision", "tp", "tp + fp"), ("recall", "tp", "n_gt")]
     for p in paths:
@@ -305,8 +384,17 @@ def rule_formulas(ctx: Ctx) -> None:
         if "float('inf')" in (S(vals["precision"]), S(vals["recall"])):
             ctx.info("C11: _summarize computes F1 from an undefined (inf) precision/recall as 2*p*r/(p+r) (nan) while calculate_f1score returns inf there; F1 is undefined in that case, the property does not constrain it")
             continue
-        z = next((v for k, v in f.items() if k.startswith("eq:") and k.endswith("==0") and "+" in k and ("inf" in k or S(vals["precision"]) in k or "/" in k) and k[3:-3] != ""), None)
+        z = None
+        for k, v in f.items():
+            if k.startswith("eq:") and k.endswith("==0"):
+                try:
+                    if Fp.parse(ast.parse(k[3:-3], mode="eval").body).equals(Fp.parse_text("p + r")):
+                        z = v
+                except (Unrecognised, SyntaxError):
+                    pass
         is_inf = fx.equals(Fp.parse_text("inf"))
+        ctx.check(z is not None and is_inf == z, "C11-formula", "_summarize", f"f1-guard:{len(p.conds)}",
+                  f"summary F1 is {'inf' if is_inf else 'a value'} on a path where `precision + recall == 0` is {z}; it must be inf exactly when p + r = 0 (guard on the denominator p + r)", fi=fs)
         ok = is_inf or fx.equals(Fp.parse_text("2 * p * r / (p + r)"))
         ctx.check(ok, "C11-formula", "_summarize", f"f1:{'inf' if is_inf else 'value'}:{len(p.conds)}", f"summary F1 is `{S(e)[:140]}`; definition 2 p r / (p + r) (inf when p + r = 0)", fi=fs)
 
@@ -315,5 +403,6 @@ def run(ctx: Ctx) -> None:
     from rules import generic as _G
     ctx.run(_G.rule_arity, ("perception_eval.evaluation.metrics.classification",), "R-ARITY", 3)
     ctx.run(rule_matching)
+    ctx.run(rule_dispatch)
     ctx.run(rule_counting)
     ctx.run(rule_formulas)
